@@ -154,6 +154,19 @@ class PathEval:
             if isinstance(st, ast.Pass):
                 return self._block(rest, env, cond)
             return
+        if isinstance(st, ast.For) and not st.orelse:
+            # one symbolic iteration: the loop variables are fresh atoms; values yielded / returned inside are results;
+            # afterwards the names bound in the body are unknown (atoms of their own)
+            e2 = dict(env)
+            for x in ast.walk(st.target):
+                if isinstance(x, ast.Name):
+                    e2[x.id] = atom(x.id)
+            self._block(list(st.body), e2, cond)
+            e3 = dict(env)
+            for x in ast.walk(st):
+                if isinstance(x, ast.Name) and isinstance(x.ctx, ast.Store):
+                    e3[x.id] = atom(x.id)
+            return self._block(rest, e3, cond)
         raise AnalysisError(f'poly: statement not modelled: {norm_stmt(st)}')
 
     def _assumed(self, text: str) -> Optional[bool]:
